@@ -300,6 +300,19 @@ theorem range_all_sound (A : HashAlg H) (hI : Ideal A) (t : Tree H) (n : Nat) (h
     more = false ∧ ∀ k, k.length = n → t.get A k = (lastVal kvs k).getD A.zero :=
   all_sound hI t n hwf kvs hkl more h
 
+/-- The hypotheses `WF` / `NZ` of the theorems above are not assumptions about some abstract tree:
+the trie of ANY key/value set with keys of length `n` and non-zero values (`build`, which the real
+tries are compared against node for node) is well-formed of height `n` and holds no zero leaf. -/
+theorem trie_of_entries_wf_nz (A : HashAlg H) (n : Nat) (kvs : List (Path × H))
+    (hv : ∀ kv ∈ kvs, kv.2 ≠ A.zero) (t : Tree H) (h : build n kvs = some t) : WF t n ∧ t.NZ A :=
+  ⟨build_wf n kvs t h, build_nz n kvs t hv h⟩
+
+/-- …and it holds exactly the entries (last value of a repeated key, zero for an unlisted key). -/
+theorem trie_of_entries_get (A : HashAlg H) (n : Nat) (kvs : List (Path × H))
+    (hl : ∀ kv ∈ kvs, kv.1.length = n) (k : Path) (hk : k.length = n) :
+    Trie.get A (build n kvs) k = (lastVal kvs k).getD A.zero :=
+  get_build n kvs k hl hk
+
 /-- the honest range proof of the sibling keys 110, 111 of the example trie -/
 def gapProof : PSet HTerm :=
   Trie.prove freeAlg false false (some exTree) [true, true, false] ++
